@@ -1,6 +1,7 @@
 import BpModel.Importing
 import BpProofs.Importing
 import BpProofs.ImportingParse
+import BpProofs.ImportingAlias
 /-
   C13 — Cross-package type references in generated code resolve to the right class.
 
@@ -21,6 +22,16 @@ import BpProofs.ImportingParse
     pkgOk p    every segment is non-empty, made of identifier characters, without capitals
     typeOk ty  every part of the type name begins with a capital letter
   Both are forced by the regex of parse_source_type_name (D19 outside them).
+
+  "… when many such references coexist in one module" (last part of the file):
+  `aliases_injective` — ALL pairs of import kinds (child / descendant / ancestor / root /
+  cousin / unrelated / bundled well-known types): two imports of one module that bind the
+  same name bind the same object; `alias_determines_package`; `all_at_once` — in the
+  namespace built by all the imports of a module every reference denotes the class of ITS
+  package.  Guard `Site.ok cur pydantic` (decidable): `simplePkg` target (D20 outside), not a
+  package `betterproto…`, and not the one package `<cur>.betterproto.lib[.pydantic].google.protobuf`
+  — `alias_collision_bundled_witness`: that descendant and the bundled well-known types get
+  the same alias although no segment contains `_` (a collision beyond D20).
 -/
 namespace Bp.C13
 open Bp.Casing Bp.Naming Bp.Importing
@@ -109,10 +120,8 @@ theorem wkt_unwrapped :
 
   FULL STATEMENT (false of the code, D20): two different targets never bind the same name
   in one module:   tgt₁ ≠ tgt₂ → boundName cur (ref cur tgt₁) ≠ boundName cur (ref cur tgt₂).
-  Proved: the descendant case under the guard "no segment contains `_`".  The other pairs
-  of cases (ancestor / cousin / absolute against each other) are NOT proved; they are
-  validated by the check (all ordered pairs of depth ≤ 3 on the real function, and really
-  imported all-at-once universes). -/
+  First the descendant case under the guard "no segment contains `_`" and the D20 witnesses;
+  then (section "all pairs of kinds") the full statement under `Site.ok`. -/
 
 /-- descendant packages imported into one module get pairwise different names when no
     segment contains an underscore -/
@@ -195,5 +204,183 @@ example : let r := getTypeReference (str "a.b") (str ".a.c.d.Msg") true false
 example : let r := getTypeReference (str "a") (str ".google.protobuf.Empty") true false
     r.ref.render = str "\"betterproto_lib_google_protobuf.Empty\"" ∧
     r.imp.render = str "import betterproto.lib.google.protobuf as betterproto_lib_google_protobuf" := by decide
+
+/-! ## all pairs of import kinds, and all the references of a module at once
+
+  Alias algebra (BpProofs/ImportingAlias.lean).  Every name an import binds in module `cur` is
+    `enc k ws` = `_`·k ++ "_".join(ws) ++ (`__` if k > 0)   bound to a MODULE:
+        child / descendant   k = 0,            ws = tgt[len(cur):]
+        ancestor (not root)  k = len(cur)-len(tgt)+1, ws = [tgt[-1]]
+        cousin / unrelated   k = len(cur)-len(shared), ws = tgt[len(shared):]
+        bundled google.protobuf   k = 0,       ws = betterproto.lib[.pydantic].google.protobuf (absolute)
+    or `_`·len(cur) ++ ClassName ++ `__`   bound to a CLASS of the root package.
+  With simple segments the name determines `(k, ws)` (`enc_inj`: count the leading
+  underscores, split the rest at `_`), a class name is told from a segment by its first
+  character, and `(k, ws)` determines the generated package: `cur[:len(cur)-k] ++ ws`
+  in all three relative kinds. -/
+
+/-- **alias injectivity for ALL pairs of kinds.**  Two references made in the module of
+    package `cur` — to types of packages in ANY relative position: child, deeper descendant,
+    ancestor, the root package, cousin, unrelated, google.protobuf — whose imports bind the
+    same name bind the same object. -/
+theorem aliases_injective (cur : Pkg) (pydantic : Bool) (s1 s2 : Site) (hc : pkgOk cur = true)
+    (h1 : s1.ok cur pydantic = true) (h2 : s2.ok cur pydantic = true)
+    (a : Str) (o1 o2 : Obj)
+    (b1 : (siteRef cur pydantic s1).imp.bind cur = some (a, o1))
+    (b2 : (siteRef cur pydantic s2).imp.bind cur = some (a, o2)) : o1 = o2 := by
+  obtain ⟨p1, p2, p3, p4⟩ := Site.ok_parts h1
+  obtain ⟨q1, q2, q3, q4⟩ := Site.ok_parts h2
+  have f1 := (typeRef_form cur s1.tgt s1.ty s1.unwrap pydantic hc p1 p2 p3 p4 _ b1).1
+  have f2 := (typeRef_form cur s2.tgt s2.ty s2.unwrap pydantic hc q1 q2 q3 q4 _ b2).1
+  have := form_inj cur pydantic _ _ f1 f2 rfl
+  injection this
+
+/-- the object a reference's import binds determines the package (and, for the root package,
+    the class) -/
+theorem objOf_inj (cur : Pkg) (pydantic : Bool) (t1 t2 : Pkg) (ty1 ty2 : List Str)
+    (h : (if t1 = googleProtobuf ∧ cur ≠ googleProtobuf then Obj.module (.abs (bundled pydantic))
+          else if t1 = [] then .cls (.gen []) (classOf ty1) else .module (.gen t1))
+       = (if t2 = googleProtobuf ∧ cur ≠ googleProtobuf then Obj.module (.abs (bundled pydantic))
+          else if t2 = [] then .cls (.gen []) (classOf ty2) else .module (.gen t2))) :
+    t1 = t2 ∧ (t1 = [] → classOf ty1 = classOf ty2) := by
+  have hgp : googleProtobuf ≠ ([] : Pkg) := by decide
+  by_cases c1 : t1 = googleProtobuf ∧ cur ≠ googleProtobuf
+  · rw [if_pos c1] at h
+    by_cases c2 : t2 = googleProtobuf ∧ cur ≠ googleProtobuf
+    · exact ⟨by rw [c1.1, c2.1], fun e => absurd (c1.1 ▸ e) hgp⟩
+    · rw [if_neg c2] at h
+      by_cases d2 : t2 = []
+      · rw [if_pos d2] at h; cases h
+      · rw [if_neg d2] at h; injection h with h; cases h
+  · rw [if_neg c1] at h
+    by_cases c2 : t2 = googleProtobuf ∧ cur ≠ googleProtobuf
+    · rw [if_pos c2] at h
+      by_cases d1 : t1 = []
+      · rw [if_pos d1] at h; cases h
+      · rw [if_neg d1] at h; injection h with h; cases h
+    · rw [if_neg c2] at h
+      by_cases d1 : t1 = [] <;> by_cases d2 : t2 = []
+      · rw [if_pos d1, if_pos d2] at h
+        injection h with _ h
+        exact ⟨by rw [d1, d2], fun _ => h⟩
+      · rw [if_pos d1, if_neg d2] at h; cases h
+      · rw [if_neg d1, if_pos d2] at h; cases h
+      · rw [if_neg d1, if_neg d2] at h
+        injection h with h; injection h with h
+        exact ⟨h, fun e => absurd e d1⟩
+
+/-- … hence **two different target packages never get the same alias / bound name** (for the
+    root package, whose classes are imported one by one: two different classes never do);
+    google.protobuf, which is redirected to the bundled library, is told from all generated
+    packages too -/
+theorem alias_determines_package (cur : Pkg) (pydantic : Bool) (s1 s2 : Site) (hc : pkgOk cur = true)
+    (h1 : s1.ok cur pydantic = true) (h2 : s2.ok cur pydantic = true)
+    (hb : boundName cur (siteRef cur pydantic s1) = boundName cur (siteRef cur pydantic s2))
+    (hsome : boundName cur (siteRef cur pydantic s1) ≠ none) :
+    s1.tgt = s2.tgt ∧ (s1.tgt = [] → classOf s1.ty = classOf s2.ty) := by
+  obtain ⟨p1, p2, p3, p4⟩ := Site.ok_parts h1
+  obtain ⟨q1, q2, q3, q4⟩ := Site.ok_parts h2
+  unfold boundName at hb hsome
+  cases e1 : (siteRef cur pydantic s1).imp.bind cur with
+  | none => rw [e1] at hsome; exact absurd rfl hsome
+  | some b1 =>
+    cases e2 : (siteRef cur pydantic s2).imp.bind cur with
+    | none => rw [e1, e2] at hb; cases hb
+    | some b2 =>
+      rw [e1, e2] at hb
+      simp only [Option.map_some, Option.some.injEq] at hb
+      obtain ⟨f1, g1⟩ := typeRef_form cur s1.tgt s1.ty s1.unwrap pydantic hc p1 p2 p3 p4 _ e1
+      obtain ⟨f2, g2⟩ := typeRef_form cur s2.tgt s2.ty s2.unwrap pydantic hc q1 q2 q3 q4 _ e2
+      have := form_inj cur pydantic _ _ f1 f2 hb
+      subst this
+      rw [g1] at g2
+      exact objOf_inj cur pydantic s1.tgt s2.tgt s1.ty s2.ty g2
+
+/-- **all kinds coexisting**: in the namespace built by ALL the import statements of the
+    module of `cur` (executed in any order: `sites` is an arbitrary list, the last binding of a
+    name wins), every reference to a type of a generated package denotes the class generated
+    for that type in ITS package -/
+theorem all_at_once (cur : Pkg) (pydantic : Bool) (sites : List Site) (hc : pkgOk cur = true)
+    (hok : ∀ s ∈ sites, s.ok cur pydantic = true) (s : Site) (hs : s ∈ sites) (hg : s.tgt ≠ googleProtobuf) :
+    denoteNs cur (moduleNs cur pydantic sites) (siteRef cur pydantic s).ref = some (.gen s.tgt, classOf s.ty) := by
+  obtain ⟨p1, p2, -, p4⟩ := Site.ok_parts (hok s hs)
+  rw [denoteNs_eq_denote cur pydantic sites hc hok s hs]
+  exact reference_resolves cur s.tgt s.ty s.unwrap pydantic hc (simplePkg_pkgOk p1) p4 hg p2
+
+/-- … and every well-known type that is not unwrapped denotes the bundled class -/
+theorem all_at_once_wkt (cur : Pkg) (pydantic : Bool) (sites : List Site) (hc : pkgOk cur = true)
+    (hcur : cur ≠ googleProtobuf) (hok : ∀ s ∈ sites, s.ok cur pydantic = true) (name : Str)
+    (hs : { tgt := googleProtobuf, ty := [name], unwrap := false } ∈ sites) :
+    denoteNs cur (moduleNs cur pydantic sites)
+        (siteRef cur pydantic { tgt := googleProtobuf, ty := [name], unwrap := false }).ref
+      = some (.abs (bundled pydantic), pythonizeClassName name) := by
+  have hn : tyPartOk name = true := by
+    have := (Site.ok_parts (hok _ hs)).2.2.2
+    simpa [typeOk] using this
+  rw [denoteNs_eq_denote cur pydantic sites hc hok _ hs]
+  exact wkt_resolves_to_bundled cur name pydantic hc hcur hn
+
+/-- the imports of a module never shadow one of its own classes: no bound name looks like a
+    class name (class names begin with a capital or a digit, bound names with `_` or a
+    lower-case letter) -/
+theorem alias_never_a_class_name (cur : Pkg) (pydantic : Bool) (s : Site) (hc : pkgOk cur = true)
+    (h : s.ok cur pydantic = true) (a : Str) (ha : boundName cur (siteRef cur pydantic s) = some a) :
+    isClassName a = false := by
+  obtain ⟨p1, p2, p3, p4⟩ := Site.ok_parts h
+  unfold boundName at ha
+  cases e : (siteRef cur pydantic s).imp.bind cur with
+  | none => rw [e] at ha; cases ha
+  | some b =>
+    rw [e] at ha
+    simp only [Option.map_some, Option.some.injEq] at ha
+    subst ha
+    exact form_not_className cur pydantic b (typeRef_form cur s.tgt s.ty s.unwrap pydantic hc p1 p2 p3 p4 b e).1
+
+/-- **a collision beyond D20** (no `_`, no digit-letter boundary, no keyword in any segment):
+    in the module of package `x`, the descendant package `x.betterproto.lib.google.protobuf`
+    and the bundled google.protobuf (`import betterproto.lib.google.protobuf as …`) are both
+    bound to `betterproto_lib_google_protobuf`; with both imports in the module, the
+    reference to the descendant's `Msg` denotes a class of the bundled library.  This is the
+    only shape excluded by `Site.ok` besides D19 / D20. -/
+theorem alias_collision_bundled_witness :
+    let cur := pkg "x"
+    let s1 : Site := { tgt := pkg "x.betterproto.lib.google.protobuf", ty := [str "Msg"], unwrap := true }
+    let s2 : Site := { tgt := pkg "google.protobuf", ty := [str "Empty"], unwrap := true }
+    simplePkg s1.tgt = true ∧ simplePkg s2.tgt = true ∧ s1.tgt.take 1 ≠ [str "betterproto"] ∧
+    (siteRef cur false s1).imp.render = str "from .betterproto.lib.google import protobuf as betterproto_lib_google_protobuf" ∧
+    (siteRef cur false s2).imp.render = str "import betterproto.lib.google.protobuf as betterproto_lib_google_protobuf" ∧
+    boundName cur (siteRef cur false s1) = boundName cur (siteRef cur false s2) ∧
+    (siteRef cur false s1).imp.bind cur ≠ (siteRef cur false s2).imp.bind cur ∧
+    denoteNs cur (moduleNs cur false [s1, s2]) (siteRef cur false s1).ref
+      = some (.abs (pkg "betterproto.lib.google.protobuf"), str "Msg") := by decide
+
+/-! non-vacuity: module `a.b` referring at once to a child, a deeper descendant, its parent,
+    the root package, a cousin, an unrelated package, a sibling type and a well-known type -/
+def demoSites : List Site :=
+  [ { tgt := pkg "a.b.c", ty := [str "Msg"], unwrap := true },
+    { tgt := pkg "a.b.c.d", ty := [str "Msg", str "Inner"], unwrap := true },
+    { tgt := pkg "a", ty := [str "Msg"], unwrap := true },
+    { tgt := [], ty := [str "Top"], unwrap := true },
+    { tgt := pkg "a.c.d", ty := [str "Msg"], unwrap := true },
+    { tgt := pkg "z.b", ty := [str "Msg"], unwrap := true },
+    { tgt := pkg "a.b", ty := [str "Own"], unwrap := true },
+    { tgt := pkg "google.protobuf", ty := [str "Empty"], unwrap := false },
+    { tgt := pkg "google.protobuf", ty := [str "Timestamp"], unwrap := true } ]
+
+example : pkgOk (pkg "a.b") = true ∧ demoSites.all (Site.ok (pkg "a.b") false) = true := by decide
+example : (moduleNs (pkg "a.b") false demoSites).map (·.1)
+    = [str "c", str "c_d", str "__a__", str "__Top__", str "_c_d__", str "__z_b__", str "betterproto_lib_google_protobuf"] := by decide
+example : demoSites.map (fun s => denoteNs (pkg "a.b") (moduleNs (pkg "a.b") false demoSites) (siteRef (pkg "a.b") false s).ref)
+    = [some (.gen (pkg "a.b.c"), str "Msg"), some (.gen (pkg "a.b.c.d"), str "MsgInner"), some (.gen (pkg "a"), str "Msg"),
+       some (.gen [], str "Top"), some (.gen (pkg "a.c.d"), str "Msg"), some (.gen (pkg "z.b"), str "Msg"),
+       some (.gen (pkg "a.b"), str "Own"), some (.abs (pkg "betterproto.lib.google.protobuf"), str "Empty"), none] := by decide
+
+#print axioms reference_resolves
+#print axioms aliases_injective
+#print axioms alias_determines_package
+#print axioms all_at_once
+#print axioms all_at_once_wkt
+#print axioms alias_never_a_class_name
+#print axioms alias_collision_bundled_witness
 
 end Bp.C13
